@@ -21,7 +21,7 @@ LEVEL_NOTE = ("Liveness theorems carry the hypothesis no_oof (the model's recurs
               "delivered graph with a rank function (DAG). For cyclic *and* inconsistent deliveries (same id, different dependency lists) the "
               "Rust recursion is unbounded; ids are content hashes in p2panda, so this cannot be constructed there. Correspondence is "
               "differential testing; where the model says the released sequence depends on the HashSet order (flag M) only batch sets / "
-              "multisets are compared, the order itself is judged by the oracle.")
+              "multisets (only the released set when items are re-delivered between single next calls: whether a re-delivered item is queued again depends on whether it was already taken) are compared, the order itself is judged by the oracle.")
 ASSUMPTIONS = ["SQLite executes the issued SQL with standard semantics (PRIMARY KEY, UNIQUE index, INSERT OR IGNORE, ORDER BY, COUNT, IN)",
                "set_digest (BLAKE3 over fixed-width hex ids) is injective on (child, sorted parents)",
                "each CausalOrderer call runs in one committed transaction (as Orderer::process/next and the crate's tests do)",
@@ -30,8 +30,8 @@ TRUSTED = ["modelled not verified: SQLite/sqlx semantics, HashSet iteration orde
            "hook: p2panda-stream/src/orderer/verif_c11.rs (re-export of CausalOrderer; Ordering<Hash> for Operation<E: VerifDependencies>)"]
 RULE = ("quick: every DAG shape on <= 3 nodes x every delivery permutation x {plain, every dependency repeated, one missing dependency} x "
         "{drain at end, drain after every delivery, single next calls} on both drivers, a seeded sample of the 4-node shapes, duplicates of "
-        "deliveries, cycles and re-deliveries with other dependency lists (CausalOrderer only), 60 random DAGs <= 25 nodes; thorough: all "
-        "4-node shapes x permutations x variants, a sample of 5-node ones, 600 random DAGs <= 40 nodes. non-trivial = some item is delivered "
+        "deliveries, cycles and re-deliveries with other dependency lists (CausalOrderer only), 60 random DAGs <= 25 nodes; thorough: 4000 of "
+        "the 13824 4-node shape x permutation x variant x style combinations, 1500 5-node ones, 400 random DAGs <= 40 nodes. non-trivial = some item is delivered "
         "before one of its dependencies (it has to wait or stay blocked) and at least two items are released")
 NONTRIVIAL_FLOOR = 50
 HARNESS_TIMEOUT = 1800
@@ -154,10 +154,11 @@ def gen(tier, rng):
         for _ in range(60):
             yield _random_dag(rng, 25)
     else:
-        for n in (1, 2, 3, 4):
+        for n in (1, 2, 3):
             yield from _small(n, rng)
-        yield from _small(5, rng, sample=3000)
-        for _ in range(600):
+        yield from _small(4, rng, sample=4000)
+        yield from _small(5, rng, sample=1500)
+        for _ in range(400):
             yield _random_dag(rng, 40)
 
 
@@ -234,14 +235,6 @@ def agree(case, impl, model):
         return False
     if len(a) != len(b):
         return False
-    # same shape: empty answers and batch sizes are independent of the iteration order
-    for x, y in zip(a, b):
-        if (x is None) != (y is None) or isinstance(x, list) != isinstance(y, list):
-            return False
-        if isinstance(x, list) and len(x) != len(y):
-            return False
-    if all(o[0] != "n" for o in case["ops"]):
-        return all(sorted(x) == sorted(y) for x, y in zip(a, b))
 
     def flat(ts):
         r = []
@@ -251,6 +244,20 @@ def agree(case, impl, model):
             elif t is not None:
                 r.append(t)
         return sorted(r)
+    nodes = [o[1] for o in case["ops"] if o[0] == "d"]
+    if any(o[0] == "n" for o in case["ops"]) and len(set(nodes)) < len(nodes):
+        # an item delivered again is re-queued only if it has been taken already: with single `next`
+        # calls that depends on the (HashSet dependent) order, so even the number of releases may
+        # differ; what is released at all does not
+        return set(flat(a)) == set(flat(b))
+    # same shape: empty answers and batch sizes are independent of the iteration order
+    for x, y in zip(a, b):
+        if (x is None) != (y is None) or isinstance(x, list) != isinstance(y, list):
+            return False
+        if isinstance(x, list) and len(x) != len(y):
+            return False
+    if all(o[0] != "n" for o in case["ops"]):
+        return all(sorted(x) == sorted(y) for x, y in zip(a, b))
     return flat(a) == flat(b)
 
 
